@@ -335,6 +335,69 @@ def extra_sequences(ctx, LOG):
     return n
 
 
+BASECLASS_MODULE = '''
+import vmonbk_log as L
+from mido.ports import BaseInput, BaseOutput
+L.LOG.append(('import', __name__))
+class Input(BaseInput):
+    def _open(self, **kwargs):
+        L.LOG.append(('Input', __name__, self.name, dict(kwargs)))
+class Output(BaseOutput):
+    def _open(self, **kwargs):
+        L.LOG.append(('Output', __name__, self.name, dict(kwargs)))
+def get_devices(**kwargs):
+    L.LOG.append(('get_devices', __name__, dict(kwargs)))
+    return [{'name': 'X', 'is_input': True, 'is_output': True}]
+'''
+
+
+def baseclass_backend_cases(ctx, LOG, d):
+    """A backend written the way the documentation says ("subclass BaseInput / BaseOutput and override _open ..."), with no
+    IOPort of its own: every documented option of open_input / open_output / open_ioport reaches it, open_ioport wraps
+    an Input/Output pair opened with those options, names and API as for any other module."""
+    with open(os.path.join(d, 'vmonbk_base.py'), 'w') as f:
+        f.write(BASECLASS_MODULE)
+    n = 0
+    saved_env = {k: os.environ.get(k) for k in ENVV}
+    try:
+        for k in ENVV:
+            os.environ.pop(k, None)
+        for api in (None, 'APIX'):
+            for opts in ({}, {'virtual': True}, {'autoreset': True}, {'callback': CALLBACK}, {'virtual': True, 'autoreset': True, 'callback': CALLBACK},
+                         {'autoreset': False, 'client_name': 'me'}):
+                for entry in ('open_input', 'open_output', 'open_ioport'):
+                    allowed = {'open_input': ('virtual', 'callback', 'client_name'), 'open_output': ('virtual', 'autoreset', 'client_name'),
+                               'open_ioport': ('virtual', 'callback', 'autoreset', 'client_name')}[entry]
+                    kw = {k: v for k, v in opts.items() if k in allowed}
+                    case = {'kind': 'baseclass-backend', 'entry': entry, 'api': api, 'options': sorted(kw)}
+                    sys.modules.pop('vmonbk_base', None)
+                    del LOG[:]
+                    try:
+                        b = Backend('vmonbk_base' + (f'/{api}' if api else ''))
+                        r = getattr(b, entry)('P', **kw)
+                        calls = [(e[0], e[2]) for e in LOG if e[0] in ('Input', 'Output')]
+                        want = {'open_input': [('Input', 'P')], 'open_output': [('Output', 'P')], 'open_ioport': [('Input', 'P'), ('Output', 'P')]}[entry]
+                        seen = [e[3] for e in LOG if e[0] in ('Input', 'Output')]
+                        ok_kw = all(all(d_.get(k) == v for k, v in kw.items() if k != 'autoreset' and k != 'callback') and d_.get('api') == api for d_ in seen) \
+                            if api else all(all(d_.get(k) == v for k, v in kw.items() if k not in ('autoreset', 'callback')) for d_ in seen)
+                        ctx.check('constructor calls == model', calls == want and ok_kw, 'baseclass-backend:calls', case,
+                                  lambda: {'calls': calls, 'kwargs': [sorted(x) for x in seen]})
+                        if entry == 'open_ioport':
+                            ctx.check('native IOPort iff present', type(r) is ports.IOPort, 'baseclass-backend:ioport-kind', case, type(r).__name__)
+                        r.close()
+                    except Exception as exc:
+                        ctx.fail('no exception', f'baseclass-backend:{type(exc).__name__}:{entry}', case, f'{type(exc).__name__}: {exc}')
+                    n += 1
+    finally:
+        sys.modules.pop('vmonbk_base', None)
+        for k, v in saved_env.items():
+            if v is None:
+                os.environ.pop(k, None)
+            else:
+                os.environ[k] = v
+    return n
+
+
 def explicit_empty_name_cases(ctx, LOG):
     """An explicit port name beats the environment - also the empty string, which is a name like any other to
     open_input / open_output and to a native IOPort (what a wrapped pair does with it is left open: the code asks
@@ -822,6 +885,9 @@ def run(ctx):
                 ctx.nontrivial(None, k)
                 n += k
                 k = explicit_empty_name_cases(ctx, LOG)
+                ctx.nontrivial(None, k)
+                n += k
+                k = baseclass_backend_cases(ctx, LOG, d)
                 ctx.nontrivial(None, k)
                 n += k
         finally:
